@@ -333,6 +333,8 @@ func c13RestOfC13(p *Prog, r *Report) {
 	c13MeasurementIdFilter(p, r)
 	c13YamlWriter(p, r)
 	c13RuneSlicing(p, r)
+	c13YamlIndexAgreement(p, r)
+	c13FlagCharacters(p, r)
 }
 
 // soilSiblingPair: the two soil readers fill the same destinations with the same value shape (shared with C15.R7)
@@ -1535,4 +1537,148 @@ func c13RuneSlicing(p *Prog, r *Report) {
 	sort.Strings(onlyA)
 	sort.Strings(onlyB)
 	r.Ob("rune-columns", "-", len(a) > 0 && len(onlyA) == 0 && len(onlyB) == 0, fmt.Sprintf("%d column expression(s) on character-indexed lines in the reader, %d in the converter; only in the reader: %v; only in the converter: %v", len(a), len(b), onlyA, onlyB))
+}
+
+// ---------------------------------------------------------------- the YAML reader copies entry i to slot i
+
+// c13YamlIndexAgreement: the YAML crop reader copies list entries of the parsed document into the state arrays.  The
+// sibling comparison with the classic reader erases where a value was parsed from, so it cannot see an entry taken
+// from another position of the document (stage i+1's temperature sum into stage i).  Demanded: in every assignment of
+// the YAML reader whose right-hand side selects from the parsed document, the index expressions on the right are,
+// in order, the index expressions on the left.
+func c13YamlIndexAgreement(p *Prog, r *Report) {
+	r.Rule("C13.yaml-index", "the YAML crop reader copies entry i of a list of the parsed document to slot i of the state array (and [i][L] to [i][L]): left-hand and right-hand index expressions agree in order", 15)
+	fi := p.Funcs["hermes.ReadCropParamYml"]
+	if fi == nil {
+		r.Ob("yaml-index", "-", false, "hermes.ReadCropParamYml not found")
+		return
+	}
+	info := fi.Pkg.TypesInfo
+	// the parsed document: the local whose type is the crop parameter struct
+	isDoc := func(e ast.Expr) bool {
+		for {
+			switch t := e.(type) {
+			case *ast.ParenExpr:
+				e = t.X
+			case *ast.SelectorExpr:
+				e = t.X
+			case *ast.IndexExpr:
+				e = t.X
+			case *ast.CallExpr:
+				if len(t.Args) == 1 {
+					e = t.Args[0]
+				} else {
+					return false
+				}
+			case *ast.Ident:
+				return isNamed(info.TypeOf(t), "/hermes", "CropParam")
+			default:
+				return false
+			}
+		}
+	}
+	indices := func(e ast.Expr) []string {
+		var out []string
+		var walk func(e ast.Expr)
+		walk = func(e ast.Expr) {
+			switch t := e.(type) {
+			case *ast.ParenExpr:
+				walk(t.X)
+			case *ast.SelectorExpr:
+				walk(t.X)
+			case *ast.IndexExpr:
+				walk(t.X)
+				out = append(out, types.ExprString(t.Index))
+			case *ast.CallExpr:
+				if len(t.Args) == 1 {
+					walk(t.Args[0])
+				}
+			}
+		}
+		walk(e)
+		return out
+	}
+	n := 0
+	ast.Inspect(fi.Decl.Body, func(m ast.Node) bool {
+		as, ok := m.(*ast.AssignStmt)
+		if !ok || len(as.Lhs) != 1 || len(as.Rhs) != 1 {
+			return true
+		}
+		ri := indices(as.Rhs[0])
+		if len(ri) == 0 || !isDoc(as.Rhs[0]) {
+			return true
+		}
+		li := indices(as.Lhs[0])
+		n++
+		same := strings.Join(li, ",") == strings.Join(ri, ",")
+		r.Ob("yaml-index", p.Pos(as.Pos()), same, fmt.Sprintf("%s = %s: indices [%s] ← [%s]", types.ExprString(as.Lhs[0]), clip(types.ExprString(as.Rhs[0]), 80), strings.Join(li, ","), strings.Join(ri, ",")))
+		return true
+	})
+	if n == 0 {
+		r.Ob("yaml-index", "-", false, "no indexed copy from the parsed document found")
+	}
+}
+
+// ---------------------------------------------------------------- flag characters of the classic crop file
+
+// c13FlagCharacters: the classic crop file marks perennial crops and legumes with one character in a fixed column.
+// The sibling comparison maps the comparison back to the destination before comparing, so it cannot see the sense of
+// the comparison.  Demanded: every store of a boolean crop flag from a character of a line is an equality test, and
+// the reader and the converter test the same column against the same character.
+func c13FlagCharacters(p *Prog, r *Report) {
+	r.Rule("C13.flag-chars", "a boolean crop flag read from one character of a classic crop file line is `line[col] == 'c'`, with the same column and character in the reader and in the converter", 4)
+	type site struct {
+		fn, field, col, ch string
+		eq                 bool
+		pos                string
+	}
+	var sites []site
+	for _, key := range []string{"hermes.ReadCropParamClassic", "hermes.ConvertCropParamClassicToYml"} {
+		fi := p.Funcs[key]
+		if fi == nil {
+			r.Ob("flag-chars:"+key, "-", false, "function not found")
+			continue
+		}
+		ast.Inspect(fi.Decl.Body, func(n ast.Node) bool {
+			as, ok := n.(*ast.AssignStmt)
+			if !ok || len(as.Lhs) != 1 || len(as.Rhs) != 1 {
+				return true
+			}
+			sel, ok := as.Lhs[0].(*ast.SelectorExpr)
+			if !ok {
+				return true
+			}
+			be, ok := ast.Unparen(as.Rhs[0]).(*ast.BinaryExpr)
+			if !ok {
+				return true
+			}
+			ix, ok := ast.Unparen(be.X).(*ast.IndexExpr)
+			lit, ok2 := ast.Unparen(be.Y).(*ast.BasicLit)
+			if !ok || !ok2 || lit.Kind != token.CHAR {
+				return true
+			}
+			sites = append(sites, site{key, sel.Sel.Name, types.ExprString(ix.Index), lit.Value, be.Op == token.EQL, p.Pos(as.Pos())})
+			return true
+		})
+	}
+	ref := map[string]site{}
+	for _, s := range sites {
+		if s.fn == "hermes.ReadCropParamClassic" {
+			ref[s.field] = s
+		}
+	}
+	for _, s := range sites {
+		ok := s.eq
+		detail := fmt.Sprintf("%s: %s = line[%s] == %s (equality: %v)", s.fn, s.field, s.col, s.ch, s.eq)
+		if o, has := ref[s.field]; has {
+			if o.col != s.col || o.ch != s.ch {
+				ok = false
+				detail += fmt.Sprintf("; the reader tests column %s against %s", o.col, o.ch)
+			}
+		} else {
+			ok = false
+			detail += "; no such flag in the reader"
+		}
+		r.Ob("flag-chars:"+s.fn+":"+s.field, s.pos, ok, detail)
+	}
 }
